@@ -107,3 +107,57 @@ func HC16_replaceEnums() {
 	}
 	vfAssert(ok, "C16/enum-placeholder-becomes-the-sql-literal-of-the-constant")
 }
+
+func c08Upper(c byte) bool { return vfAnd(c >= 'A', c <= 'Z') }
+func c08Lower(c byte) bool { return vfAnd(c >= 'a', c <= 'z') }
+func c08Digit(c byte) bool { return vfAnd(c >= '0', c <= '9') }
+
+// c08RefSnake: the snake-case convention written with plain loops:
+// (1) an underscore goes between any character and a capitalised word (an upper-case letter
+// followed by at least one lower-case letter), scanning left to right without overlap;
+// (2) then between a lower-case letter or digit and an upper-case letter; (3) lower-case all.
+func c08RefSnake(s string) string {
+	// pass 1
+	var p1 []byte
+	i := 0
+	for i < len(s) {
+		if i+2 < len(s) && vfFork(vfAnd(c08Upper(s[i+1]), c08Lower(s[i+2]))) {
+			j := i + 3
+			for j < len(s) && vfFork(c08Lower(s[j])) {
+				j++
+			}
+			p1 = append(p1, s[i], '_')
+			p1 = append(p1, s[i+1:j]...)
+			i = j
+			continue
+		}
+		p1 = append(p1, s[i])
+		i++
+	}
+	// pass 2
+	var p2 []byte
+	i = 0
+	for i < len(p1) {
+		if i+1 < len(p1) && vfFork(vfAnd(vfOr(c08Lower(p1[i]), c08Digit(p1[i])), c08Upper(p1[i+1]))) {
+			p2 = append(p2, p1[i], '_', p1[i+1])
+			i += 2
+			continue
+		}
+		p2 = append(p2, p1[i])
+		i++
+	}
+	for k, c := range p2 {
+		if vfFork(c08Upper(c)) {
+			p2[k] = c + 32
+		}
+	}
+	return string(p2)
+}
+
+// HC08_snakeCase: table names follow the snake-case-plural convention, for every name.
+func HC08_snakeCase() {
+	name := vfString("name", 1, vfParam("C08.table", 4), "alnum")
+	got := SQLTableName(sql.TableName(name))
+	vfObserve("got", got)
+	vfAssert(got == c08RefSnake(name)+"s", "C08/table-named-by-the-snake-case-plural-convention")
+}
